@@ -15,9 +15,11 @@
 (***************************************************************************)
 EXTENDS Integers, Sequences, FiniteSets, TLC, Json
 
-IpKinds   == {"digest", "bitflip", "outside", "known"}
+IpKinds   == {"digest", "bitflip", "outside", "known", "rederived"}
   \* G's address / one bit flipped inside fd00::/8 / G is a self-consistent identity whose digest lies outside fd00::/8 /
-  \* the address of a router the victim already knows
+  \* the address of a router the victim already knows / the address is RE-DERIVED: it is the digest of exactly the
+  \* material that is presented (whatever its type name or key size) and was ground into fd00::/8 - only the checks on
+  \* the names and sizes can refuse it
 HashKinds == {"orig", "othervalid", "unknown", "empty", "long"}
 TypeKinds == {"ed25519", "unknown", "empty"}
 KeyKinds  == {"orig", "bitflip", "other", "short", "long", "empty"}
@@ -35,9 +37,13 @@ EasingSeen(entry, eased, eas) ==
 (* ---- the declarative property *)
 InBase(ip) == ip # "outside"
 DigestDefined(h) == h \in {"orig", "othervalid"}
-DigestMatches(ip, h, t, k, e) == ip \in {"digest", "outside"} /\ h = "orig" /\ t = "ed25519" /\ k = "orig" /\ e = "orig"
+DigestMatches(ip, h, t, k, e) ==
+  IF ip = "rederived" THEN e = "orig"       \* the digest was computed over the presented material with the presented easing
+  ELSE ip \in {"digest", "outside"} /\ h = "orig" /\ t = "ed25519" /\ k = "orig" /\ e = "orig"
+TypeKnown(t) == t = "ed25519"
+KeySizeOK(k) == k \in {"orig", "bitflip", "other"}
 Acceptable(entry, eased, ip, h, t, k, eas) ==
-  InBase(ip) /\ DigestDefined(h) /\ DigestMatches(ip, h, t, k, EasingSeen(entry, eased, eas))
+  InBase(ip) /\ DigestDefined(h) /\ TypeKnown(t) /\ KeySizeOK(k) /\ DigestMatches(ip, h, t, k, EasingSeen(entry, eased, eas))
 
 (* ---- the checks in code order (VerifyAddress, then VerifyAddressKey; AddressFromStorage checks sizes first) *)
 Reason(entry, eased, ip, h, t, k, eas) ==
@@ -69,8 +75,11 @@ Generate(cand, accept, ignore) ==
              returned |-> cand # "internal" /\ cand \notin ignore /\ cand \in accept]
 
 Next == phase = "start" /\
-  (\/ \E entry \in Entries, eased \in BOOLEAN, ip \in IpKinds, h \in HashKinds, t \in TypeKinds, k \in KeyKinds, eas \in EasKinds :
+  (\/ \E entry \in Entries, eased \in BOOLEAN, ip \in IpKinds \ {"rederived"}, h \in HashKinds, t \in TypeKinds, k \in KeyKinds, eas \in EasKinds :
         Present(entry, eased, ip, h, t, k, eas)
+   \* re-derived addresses: only where a digest exists; the presented easing is zero (eased = FALSE) or not
+   \/ \E entry \in Entries, eased \in BOOLEAN, h \in {"orig", "othervalid"}, t \in TypeKinds, k \in {"orig", "other", "short", "long", "empty"} :
+        Present(entry, eased, "rederived", h, t, k, "orig")
    \/ \E cand \in Regions, accept \in SUBSET (Regions \ {"internal"}), ignore \in SUBSET (Regions \ {"internal"}) : Generate(cand, accept, ignore))
 Spec == Init /\ [][Next]_vars
 
